@@ -119,15 +119,22 @@ _dispatch_semaphore_wait_slow(dispatch_semaphore_t dsema,
 		// Try to undo what the fast path did to dsema->dsema_value
 		DISPATCH_FALLTHROUGH;
 	case DISPATCH_TIME_NOW:
-		orig = dsema->dsema_value;
-		while (orig < 0) {
-			if (os_atomic_cmpxchgvw2o(dsema, dsema_value, orig, orig + 1,
-					&orig, relaxed)) {
-				return _DSEMA4_TIMEOUT();
+		for (;;) {
+			orig = dsema->dsema_value;
+			while (orig < 0) {
+				if (os_atomic_cmpxchgvw2o(dsema, dsema_value, orig, orig + 1,
+						&orig, relaxed)) {
+					return _DSEMA4_TIMEOUT();
+				}
+			}
+			// Another thread called semaphore_signal(). Drain the wakeup, but
+			// do not block for it: a waiter that arrived in the meantime may
+			// take it, and then the value is negative again and can be undone.
+			if (!_dispatch_sema4_timedwait(&dsema->dsema_sema,
+					dispatch_time(DISPATCH_TIME_NOW, NSEC_PER_MSEC))) {
+				return 0;
 			}
 		}
-		// Another thread called semaphore_signal(). Drain the wakeup.
-		DISPATCH_FALLTHROUGH;
 	case DISPATCH_TIME_FOREVER:
 		_dispatch_sema4_wait(&dsema->dsema_sema);
 		break;
